@@ -79,6 +79,9 @@ def _docs():
     d['835'] = (_DF['835id']['source'], '2100', 'CLP02', '2')
     # the same 5010 document with a functional-group level error (GE02 differs from GS06): the acknowledgement of the group
     # carries a group error code, which must not show in the acknowledgement of any later document
+    # a 4010 document whose group control number is not numeric (an ELEMENT error on GS06 / GE02: the 997 looks its
+    # AK905 code up in a table keyed by element position)
+    d['837p_gs'] = (_DF['simple_837p']['source'].replace('*1526*1167*X*', '*1526*116A*X*').replace('GE*1*1167', 'GE*1*116A'), '2300', 'CLM02', '999.99')
     d['834_5010_ge'] = (_DF['834_lui_id_5010']['source'].replace('GE*1*13360001', 'GE*1*13360002'), '2000', 'INS02', '19')
     d['999'] = (open(os.path.join(pdir, 'tests', '834_lui_id_5010.999.txt')).read(), '2000', 'AK202', '0009')
     d['278'] = (_only_278(_DF['multiple_trn']['source']), 'ST_LOOP', 'BHT03', 'X')
@@ -170,7 +173,7 @@ def cross_map_pairs(thorough):
                 continue
             out.append((na, nb))
     return out, skipped
-DOC_ORDER = ['837p', '837p_bad', '834_5010', '834_5010_ge', '835', '999', '278', 'multi_isa', '834_delims', 'mapless']
+DOC_ORDER = ['837p', '837p_bad', '837p_gs', '834_5010', '834_5010_ge', '835', '999', '278', 'multi_isa', '834_delims', 'mapless']
 OPNAME = {'P': 'validate[map_path=site copy whose codes.xml lacks state MI]', 'v': 'validate', 'c': 'context', 'x': 'xml2x12', 'V': 'validate[charset=B,exclude=states]', 'C': 'context[charset=B,exclude=states]'}
 MAPPATH_DOCS = ('837p', '834_5010')      # documents with a state code MI: validated under another map directory as well
 VARIANT_DOCS = ('834_5010', '834_delims', '837p')       # documents with lower-case text / state codes, sensitive to the variant
